@@ -21,8 +21,9 @@ rs = bootstrap()
 # ---------------------------------------------------------------------------
 # named user functions
 
-from datetime import datetime as _datetime, timedelta as _timedelta     # noqa: E402
+from datetime import datetime as _datetime, timedelta as _timedelta, timezone as _timezone     # noqa: E402
 _EPOCH = _datetime(2020, 1, 1)
+_EPOCH_UTC = _datetime(2020, 1, 1, tzinfo=_timezone.utc)
 
 
 from collections import namedtuple as _namedtuple                       # noqa: E402
@@ -111,6 +112,9 @@ _FUNCS = {
     'frompy': lambda: (lambda p: int(p)),
     'id': lambda: (lambda i: i),
     'dt': lambda: (lambda i: _EPOCH + _timedelta(seconds=i)),
+    # the same instants as timezone-AWARE datetimes whose UTC offset changes from item to item (local-time logs across a
+    # daylight-saving change, records from several regions): they compare by instant, not by wall-clock fields
+    'dtz': lambda: (lambda i: (_EPOCH_UTC + _timedelta(seconds=i)).astimezone(_timezone(_timedelta(hours=(i % 5) - 2, minutes=30 * (i % 2))))),
     # int -> other
     'pair': lambda: (lambda i: (i, i + 1)),
     'pairmod': lambda k: (lambda i: (i % k, i)),
@@ -485,7 +489,7 @@ def build_node(node, env=None, taps=None, path=()):
             if name == 'split':
                 return rs.data.split(fn(node[1], env), inner)
             cfg = node[1]
-            conv = (lambda v: None if v is None else _timedelta(seconds=v)) if cfg.get('time') == 'dt' else (lambda v: v)
+            conv = (lambda v: None if v is None else _timedelta(seconds=v)) if cfg.get('time') in ('dt', 'dtz') else (lambda v: v)
             return rs.data.time_split(
                 time_mapper=fn(cfg.get('time', 'id'), env),
                 active_timeout=conv(cfg.get('active')), inactive_timeout=conv(cfg.get('inactive')),
@@ -548,7 +552,36 @@ class _ConsumerFailure(Exception):
     pass
 
 
-def dump_pushed(make, rows, path, out, what):
+def twin_subscriptions(make, items, out, what, digest_fn):
+    """Two observers of the SAME observable alive at the same time on one pushed source (a Subject with two
+    subscribers and no share()): each owes the events a single subscriber gets.  digest_fn(list of items) -> value
+    compared between the two and returned."""
+    from .common import Snap
+    src = Controlled()
+    obs = make(src.observable)
+    a, b = Snap(), Snap()
+    try:
+        obs.subscribe(on_next=a.on_next, on_error=a.on_error, on_completed=a.on_completed)
+        obs.subscribe(on_next=b.on_next, on_error=b.on_error, on_completed=b.on_completed)
+        for x in items:
+            src.push(x)
+        src.complete()
+    except Exception as e:              # noqa: BLE001
+        for sn in (a, b):
+            if sn.err is None and not sn.done:
+                sn.err = e
+    out.observed['pairs_of_concurrently_alive_subscriptions'] += 1
+    da = digest_fn(a.out) if a.err is None else None
+    db = digest_fn(b.out) if b.err is None else None
+    if a.err is not None or b.err is not None or not a.done or not b.done or da != db:
+        out.fail('two-concurrently-alive-subscriptions-of-one-observable-differ', what=what,
+                 first={'error': repr(a.err), 'done': a.done, 'n': len(a.out)}, second={'error': repr(b.err), 'done': b.done, 'n': len(b.out)},
+                 first_digest=repr(da)[:120], second_digest=repr(db)[:120])
+        return None
+    return da
+
+
+def dump_pushed(make, rows, path, out, what, twin=None):
     """A dump fed by a pushed (hot, not trampolined) source, whose consumer reads the file back from inside the
     completion callback - the streaming application that post-processes the file when the dump completes.
     At that moment the file must already be complete and closed: -> Snap of the dump."""
@@ -567,6 +600,10 @@ def dump_pushed(make, rows, path, out, what):
         snap.on_completed()
     try:
         make(src.observable).subscribe(on_next=snap.on_next, on_error=snap.on_error, on_completed=on_completed)
+        if twin is not None:
+            # a second dump of the same kind, to another file, alive at the same time and fed the same records
+            # ("split a stream into several outputs"); the caller reads that file back as well
+            twin(src.observable).subscribe(on_next=lambda i: None, on_error=lambda e: None, on_completed=lambda: None)
         for r in rows:
             src.push(r)
         src.complete()
